@@ -113,6 +113,8 @@ impl<'d, 's> BufferRef<'d, 's> {
 
     fn cap_at(self, index: usize) -> BufferRef<'d, 's> {
         assert!(*self.initialized_ == 0);
+        // Capping at more than what is there leaves the buffer as it is.
+        let index = index.min(self.buffer.len());
         BufferRef {
             buffer: &mut self.buffer[..index],
             initialized_: self.initialized_,
